@@ -126,4 +126,5 @@ func Gen(run *vlib.Run, seed uint64, tier string) {
 	genReal(run, r.Fork("real"), tier)
 	genFonts(run, r.Fork("fonts"), tier)
 	genAlloc(run, r.Fork("alloc"), tier)
+	genPredefined(run, r.Fork("predefined"), tier)
 }
